@@ -417,7 +417,12 @@ class EqObligation(Obligation):
                 key = nm if a_.ndim == 0 else nm + "[" + ",".join(["0"] * a_.ndim) + "]"
                 val.values[key] = float("nan")
                 nat = self._native(b, val)
-                exp = numeric(spec_l, val)
+                if b.get("native_reference") is not None:
+                    # contracts "this run of the real code == that run of the real code" (mode equivalence): both sides are
+                    # run natively, so that 0 * NaN is what the machine makes of it on both sides
+                    exp = self._native(dict(b, fn=b["native_reference"]), val)
+                else:
+                    exp = numeric(spec_l, val)
                 res["nonfinite_probes"] = res.get("nonfinite_probes", 0) + 1
                 if len(nat) != len(exp) or not all(close(x, y, 1e-6, 1e-8) for x, y in zip(nat, exp)):
                     res["status"] = "violated"
